@@ -166,13 +166,18 @@ Proof.
   intros _. unfold sign_add_vote. destruct (is_validator E); cbn; auto.
 Qed.
 
-Lemma do_prevote_keys s :
-  fst (do_prevote E s) = s /\
-  (keys (snd (do_prevote E s)) = [] \/ keys (snd (do_prevote E s)) = [(cs_height s, cs_round s, 4)]).
+Lemma do_prevote_keys round s :
+  fst (do_prevote E round s) = unlock_known round s /\
+  (keys (snd (do_prevote E round s)) = [] \/ keys (snd (do_prevote E round s)) = [(cs_height s, cs_round s, 4)]).
 Proof.
-  unfold do_prevote.
-  destruct (cs_lblock s); [apply (sign_add_vote_keys PREVOTE); auto|].
-  destruct (cs_pblock s) as [pb|]; [destruct (b_valid pb)|]; apply (sign_add_vote_keys PREVOTE); auto.
+  unfold do_prevote, do_prevote_unfixed.
+  assert (A : forall b, fst (sign_add_vote E PREVOTE b (unlock_known round s)) = unlock_known round s /\
+            (keys (snd (sign_add_vote E PREVOTE b (unlock_known round s))) = [] \/
+             keys (snd (sign_add_vote E PREVOTE b (unlock_known round s))) = [(cs_height s, cs_round s, 4)])).
+  { intro b. pose proof (sign_add_vote_keys PREVOTE b (unlock_known round s) ltac:(auto)) as H.
+    autorewrite with cs in H. exact H. }
+  destruct (cs_lblock (unlock_known round s)); [apply A|].
+  destruct (cs_pblock (unlock_known round s)) as [pb|]; [destruct (b_valid pb)|]; apply A.
 Qed.
 
 (* rounds an enter-function may be asked for: not ahead of the node's own round *)
@@ -225,8 +230,9 @@ Proof.
   - injection Eq as <- <-. split; [apply rgood_nil | exact Hh].
   - unfold step_le in G. bool_to_prop. specialize (Hr ltac:(lia)).
     assert (round = cs_round s) by lia. subst round.
-    unfold seq in Eq. destruct (do_prevote_keys s) as [Es Ek].
-    destruct (do_prevote E s) as [s1 o1]. cbn [fst snd] in Es, Ek. subst s1. rewrite Hh in Eq.
+    unfold seq in Eq. destruct (do_prevote_keys (cs_round s) s) as [Es Ek].
+    destruct (do_prevote E (cs_round s) s) as [s1 o1]. cbn [fst snd] in Es, Ek. subst s1.
+    replace (cs_halted (unlock_known (cs_round s) s)) with false in Eq by (autorewrite with cs; auto).
     unfold modify in Eq. injection Eq as <- <-. rewrite app_nil_r.
     split; [|cs; exact Hh]. split; [|split; cs; [reflexivity | lia]].
     split.
